@@ -13,6 +13,7 @@ mod j;
 mod reader;
 mod rerun;
 mod rng;
+mod watchdog;
 mod writer;
 
 #[global_allocator]
@@ -34,6 +35,7 @@ fn main() {
         // ... but a panic of the harness itself must be seen
         if let Some(l) = info.location() { if !l.file().starts_with("/repo") && !l.file().contains("/rustc/") { eprintln!("HARNESS PANIC: {}", info); } }
     }));
+    watchdog::start();
     let mut out = j::Out::create(&outp);
     match driver {
         "codec" => codec::run(&mut out, seed, thorough),
